@@ -93,7 +93,10 @@ def rand_scenario(rng, focus, sid, max_prov=5, max_pts=3):
     reg = list(range(1, len(provs) + 1)); rng.shuffle(reg)
     # preset: every point's field holds a sentinel before the start (what receives nothing must stay untouched)
     # extra: the container's second public by-type collector (NewDependencyTypeAwarePostProcessors) is registered as well
-    return dict(id=sid, prov=provs, pts=pts, order=order, reg=reg, preset=rng.random() < 0.4, extra=rng.random() < 0.25)
+    # viaMeta: one provider is not handed to the App; a user-written scanner registers its definition through the public
+    # DefinitionRegistry.RegisterMeta (it is a candidate like any other)
+    via = rng.randint(2, len(provs)) if len(provs) >= 2 and rng.random() < 0.2 else 0
+    return dict(id=sid, prov=provs, pts=pts, order=order, reg=reg, preset=rng.random() < 0.4, extra=rng.random() < 0.25, viaMeta=via)
 
 
 def with_orders(rng, sc, k):
